@@ -114,9 +114,12 @@ func C14NotationBytes() {
 				valid = false
 			}
 		}
+		if id == "_" {
+			valid = false // the blank identifier names nothing
+		}
 		if !valid {
 			vrt.Assert("receiver-that-is-no-identifier-rejected", res.Err != "")
-		} else if !strings.Contains(id, "_") {
+		} else {
 			vrt.Assert("receiver-identifier-accepted", res.Err == "" && res.Receiver == id)
 		}
 	case "reverse":
